@@ -36,6 +36,20 @@ def residue_list(sysdef):
     return out
 
 
+def atom_list(sysdef):
+    """[(mol idx, mol name, residue idx, resname, atom name)] in the order the topology (and a coordinate file) lists the atoms"""
+    out, mi = [], 0
+    for name, count in sysdef["molecules"]:
+        tdef = G.get_typedef(sysdef, name)
+        atoms, _ = G.type_atoms(tdef)
+        rs = G.atom_residue_indices(tdef)
+        for _ in range(count):
+            for (idx, resid, resname, an), r in zip(atoms, rs):
+                out.append((mi, name, r, resname, an))
+            mi += 1
+    return out
+
+
 def resid_of(sysdef, name, r):
     tdef = G.get_typedef(sysdef, name)
     return (tdef.get("resids") or list(range(1, len(tdef["res"]) + 1)))[r]
@@ -58,6 +72,7 @@ def configs(tier):
         [("W", 1), ("MIX3", 1), ("CH2", 1)],
         [("DUPB", 1), ("W", 1)],        # residue ids restart inside the molecule (di-block numbered per block)
         [("SOL", 2), ("CH2", 1), ("SOL", 1)],   # residues named SOL before and after a chain
+        [("ILV", 1), ("W", 2), ("ILV", 1)],     # atoms of one residue not contiguous in the atom list, molecules after it
     ]
     for mols in base_mols:
         types = sorted({n for n, _ in mols})
@@ -69,6 +84,12 @@ def configs(tier):
                 for res in [None] + resnames:
                     if res is not None and k == 0:
                         continue
+                    if any(G.get_typedef(sysd, n).get("listing") for n in types):
+                        # a coordinate file is a prefix of the atom list: with interleaved residues only whole molecules
+                        # can be cut off
+                        counted = [x for x in rl if x[3] != res]
+                        if kind != "c" or (k < len(counted) and counted[k][2] != 0) or (res is not None and k < len(counted)):
+                            continue
                     yield dict(sys=sysd, kind=kind, k=k, res=res, ign=None)
     # three-way splits: a prefix at atom level (-c), a longer prefix as centres (-mc, read from the first residue again), the
     # rest missing
@@ -144,12 +165,16 @@ def materialise(cfg):
                 mc_atoms.append((resid_of(sysd, name, r), resname, names[0]))
                 mc_coords.append(tuple(centres[(mi, r)]))
         elif cfg["kind"] == "c":
-            for an in names:
-                in_atoms.append((resid_of(sysd, name, r), resname, an))
-                in_coords.append(tuple(atoms[(mi, r, an)]))
+            pass        # written below, in the order the topology lists the atoms
         else:
             in_atoms.append((resid_of(sysd, name, r), resname, names[0]))
             in_coords.append(tuple(centres[(mi, r)]))
+    if cfg["kind"] == "c":
+        given_res = {(rl[i][0], rl[i][2]) for i in given_idx}
+        for mi, name, r, resname, an in atom_list(sysd):
+            if (mi, r) in given_res:
+                in_atoms.append((resid_of(sysd, name, r), resname, an))
+                in_coords.append(tuple(atoms[(mi, r, an)]))
     if in_atoms:
         sysd["input"] = dict(kind="c" if cfg["kind"] == "c+mc" else cfg["kind"], atoms=in_atoms, coords=in_coords, box=BOX)
     if mc_atoms:
@@ -212,9 +237,8 @@ def judge(cfg, sysd, exp, res, choices):
     gro_atoms = res["gro"][0]
     flat = []
     ridx = {}      # (molecule, position of the atom in the molecule) -> residue index, from the type definition
-    for (mi, name, r, resname, names) in exp["rl"]:
-        for an in names:
-            ridx.setdefault(mi, []).append((r, resname, an))
+    for (mi, name, r, resname, an) in atom_list(sysd):
+        ridx.setdefault(mi, []).append((r, resname, an))
     for mi, mol in enumerate(fa):
         for k, (resid, resname, an, p) in enumerate(mol):
             if k >= len(ridx.get(mi, [])) or ridx[mi][k][1:] != (resname, an):
